@@ -262,7 +262,7 @@ func eval(e Expr, env *EvalEnv) Value {
 		}
 		return seq[i.Int64()]
 	case *EQuant:
-		evalFail("quantifier cannot be evaluated concretely")
+		return evalQuant(e, env, 0)
 	case *ECall:
 		return evalCall(e, env)
 	}
@@ -456,4 +456,67 @@ func evalCall(e *ECall, env *EvalEnv) Value {
 	}
 	evalFail("cannot evaluate spec function %s", e.Fn)
 	return nil
+}
+
+// evalQuant evaluates a quantifier over the finite relevant domain: integer
+// binders range over -1..maxLen+1 (all contracts guard indices by 0<=k<len),
+// element binders over every element of every sequence in scope (membership
+// clauses are false on both sides outside that set).
+func evalQuant(q *EQuant, env *EvalEnv, vi int) Value {
+	if vi == len(q.Vars) {
+		return asBool(eval(q.Body, env))
+	}
+	var dom []Value
+	if q.Sorts[vi] == "int" {
+		maxLen := 0
+		for _, v := range env.Vars {
+			if s, ok := v.([]Value); ok && len(s) > maxLen {
+				maxLen = len(s)
+			}
+		}
+		for k := -1; k <= maxLen+1; k++ {
+			dom = append(dom, big.NewInt(int64(k)))
+		}
+	} else {
+		seen := map[string]bool{}
+		for _, v := range env.Vars {
+			if s, ok := v.([]Value); ok {
+				for _, e := range s {
+					key := fmt.Sprintf("%T:%v", e, e)
+					if !seen[key] {
+						seen[key] = true
+						dom = append(dom, e)
+					}
+				}
+			}
+		}
+	}
+	child := &EvalEnv{Vars: map[string]Value{}, Defs: env.Defs}
+	for k, v := range env.Vars {
+		child.Vars[k] = v
+	}
+	for _, d := range dom {
+		child.Vars[q.Vars[vi]] = d
+		var r bool
+		func() {
+			defer func() {
+				if rec := recover(); rec != nil {
+					if _, ok := rec.(evalErr); ok {
+						// incomparable element kinds: skip this instance
+						r = q.Forall
+						return
+					}
+					panic(rec)
+				}
+			}()
+			r = asBool(evalQuant(q, child, vi+1))
+		}()
+		if q.Forall && !r {
+			return false
+		}
+		if !q.Forall && r {
+			return true
+		}
+	}
+	return q.Forall
 }
